@@ -6,7 +6,7 @@ from oracle_util import *  # noqa
 from protocol import from_real
 
 ID = "C04"
-LEAN_MODULE = ["SCoda.Props.C04", "SCoda.Props.C04b"]
+LEAN_MODULE = ["SCoda.Props.C04", "SCoda.Props.C04b", "SCoda.Props.C04c", "SCoda.Props.WrapTie", "SCoda.Props.C04d"]
 LEVEL = "proof"
 CLAUSES = [
     ("after any history both views describe the same timed events and the same duration (generic two-view machine, instantiated with the modelled conversions)",
@@ -25,6 +25,27 @@ CLAUSES = [
       "SCoda.C04.cutoff_okA", "SCoda.C04.quantise_okA", "SCoda.C04.qnl_okA", "SCoda.C04.mapAbs_okA",
       "SCoda.C04.onRel_refines", "SCoda.C04.onAbs_refines", "SCoda.C04.overwriteAbs_refines", "SCoda.C04.overwriteRel_refines",
       "SCoda.C04.refresh_refines", "SCoda.C04.copy_inv"]),
+    ("histories of the PUBLIC operations of the concrete wrapper model (one constructor per driver op, `Legal` states the argument restrictions once): "
+     "from a state satisfying the invariant every legal operation succeeds and re-establishes it; after any legal history both reads succeed and describe "
+     "the same timed events (up to the order of simultaneous ones) and the same duration; with any arguments at all a readable state stays readable unless an "
+     "empty step list is handed to quantise (audit A3)",
+     ["SCoda.C04c.exec_total", "SCoda.C04c.exec_inv", "SCoda.C04c.history_inv", "SCoda.C04c.views_agree_after", "SCoda.C04c.readable",
+      "SCoda.C04c.views_agree", "SCoda.C04c.read_keeps_views", "SCoda.C04c.exec_ok_of_readable", "SCoda.C04c.exec_error_only",
+      "SCoda.C04c.history_readable", "SCoda.C04c.inv_new", "SCoda.C04c.inv_ofAbs", "SCoda.C04c.inv_ofRel", "SCoda.C04c.envOk_defaults",
+      "SCoda.C04c.split_pieces_inv", "SCoda.C04c.equals_inv", "SCoda.C04c.copy_same"]),
+    ("the effect of every public mutator is visible through both views: the written view reads exactly the function's output, and both views have its events "
+     "and duration; every mutator is the list of its view-local stages",
+     ["SCoda.C04c.effect_visible", "SCoda.C04c.exec_stages", "SCoda.C04c.effect_visible_op", "SCoda.C04c.overwrite_visible"]),
+    ("TIE BY TRANSLATION: the wrapper methods of sequence.py are re-translated statement by statement on every run (Gen/WrapFns.lean, tools/py2lean_wrap.py) and "
+     "each translation is proved equal to the wrapper model function the theorems above are about — same state and result or same error, for every state and "
+     "argument; composed: any legal history executed by the translated source keeps the invariant and stays readable. View-level methods are links (Model/ViewLib.lean)",
+     ["SCoda.WrapTie.getAbs_eq", "SCoda.WrapTie.getRel_eq", "SCoda.WrapTie.invalidateAbs_eq", "SCoda.WrapTie.invalidateRel_eq", "SCoda.WrapTie.refresh_eq",
+      "SCoda.WrapTie.copy_eq", "SCoda.WrapTie.pad_eq", "SCoda.WrapTie.setChannel_eq", "SCoda.WrapTie.normalise_eq", "SCoda.WrapTie.cutoff_eq",
+      "SCoda.WrapTie.addAbs_eq", "SCoda.WrapTie.addRel_eq", "SCoda.WrapTie.overwriteAbs_eq", "SCoda.WrapTie.overwriteRel_eq",
+      "SCoda.WrapTie.messagesAbs_eq", "SCoda.WrapTie.messagesRel_eq", "SCoda.WrapTie.quantise_eq", "SCoda.WrapTie.quantiseNoteLengths_eq",
+      "SCoda.WrapTie.quantiseAndNormalise_eq", "SCoda.WrapTie.scale_eq", "SCoda.WrapTie.transpose_eq", "SCoda.WrapTie.split_eq",
+      "SCoda.WrapTie.concatenate_eq", "SCoda.WrapTie.merge_eq", "SCoda.WrapTie.getSequenceDuration_eq", "SCoda.WrapTie.isEmpty_eq",
+      "SCoda.WrapTie.translated_covered", "SCoda.C04d.genExec_eq", "SCoda.C04d.genRun_eq", "SCoda.C04d.history_inv_gen", "SCoda.C04d.history_readable_gen"]),
     ("tripwire: every public name of Sequence found by introspection (regenerated list) appears in the hand-written classification table and "
      "vice versa — a new or removed public method breaks it; it says nothing about what the methods do",
      ["SCoda.C04.ops_covered", "SCoda.C04.ops_exist"]),
